@@ -70,4 +70,5 @@ class Flag(BaseType, IntFlag, metaclass=EnumMetaType):
         return not self.__eq__(value)
 
     def __hash__(self) -> int:
-        return hash((self.__class__, self.name, self.value))
+        # Members that compare equal hash alike
+        return hash((self.__class__, self.value))
